@@ -27,11 +27,16 @@ type SrvCfg struct {
 	MaxFileSize int64
 	MaxHandles  int
 	Async       bool // ExportOptions.Async ("allow async writes"): must not weaken what a FILE_SYNC reply promises
+	ViaConn     bool // send every request over ONE record-marking connection served by the real connection loop (instead of calling HandleCall per request)
 }
 
 func (c SrvCfg) String() string {
-	return fmt.Sprintf("attrTTL=%v attrSize=%d dirCache=%v neg=%v ro=%v squash=%s xfer=%d maxfile=%d async=%v", c.AttrTTL, c.AttrSize,
+	s := fmt.Sprintf("attrTTL=%v attrSize=%d dirCache=%v neg=%v ro=%v squash=%s xfer=%d maxfile=%d async=%v", c.AttrTTL, c.AttrSize,
 		c.DirCache, c.Neg, c.ReadOnly, c.Squash, c.Transfer, c.MaxFileSize, c.Async)
+	if c.ViaConn {
+		s += " one-connection"
+	}
+	return s
 }
 
 func (c SrvCfg) opts() absnfs.ExportOptions {
@@ -49,6 +54,7 @@ type World struct {
 	clockNs   int64
 	handles   map[string]uint64 // what the client knows: path -> handle
 	inoAt     map[string]uint64 // identity of the object each known handle was obtained for
+	peer      *Peer             // ViaConn: the one connection all requests travel on
 	keepStale bool              // keep using handles whose object was replaced (default: re-LOOKUP like a client after ESTALE)
 	trace     []string          // the run as driver lines for the Lean server model ("srv ...")
 	traceWant []string          // what the model must answer to each line
@@ -68,6 +74,9 @@ func newWorldOn(fs *RefFS, cfg SrvCfg) *World {
 		absnfs.VerifSetMaxHandles(s.NFS, cfg.MaxHandles)
 	}
 	w.srv = s
+	if cfg.ViaConn {
+		w.peer = servePeer(s, "10.1.2.3", 700)
+	}
 	w.traceConfig()
 	rep := w.callRaw(progMount, 3, 1, rootCred(), xdrOpaque([]byte("/")))
 	if rep.Err != nil || len(rep.Data) < 16 || binary.BigEndian.Uint32(rep.Data) != 0 {
@@ -130,7 +139,13 @@ func (w *World) callRaw(prog, vers, proc uint32, cred Cred, args []byte) Reply {
 		w.flushTrace() // what was recorded so far is still a complete run
 		w.noTrace = true
 	}
-	r := w.srv.Call(prog, vers, proc, cred, args)
+	var r Reply
+	if w.peer != nil {
+		rs, as, data, err := w.peer.call(prog, vers, proc, cred, args)
+		r = Reply{Err: err, Status: rs, AcceptStatus: as, Data: data, Xid: w.peer.xid}
+	} else {
+		r = w.srv.Call(prog, vers, proc, cred, args)
+	}
 	if r.Err == nil && r.Status == 0 && plain {
 		aux := "-"
 		if len(cred.Aux) > 0 {
@@ -149,7 +164,14 @@ func (w *World) callRaw(prog, vers, proc uint32, cred Cred, args []byte) Reply {
 
 func newWorld(cfg SrvCfg) *World { return newWorldOn(NewRefFS(), cfg) }
 
-func (w *World) Close() { w.flushTrace(); w.srv.Close(); absnfs.VerifClockOff() }
+func (w *World) Close() {
+	w.flushTrace()
+	if w.peer != nil {
+		w.peer.Close()
+	}
+	w.srv.Close()
+	absnfs.VerifClockOff()
+}
 
 func (w *World) nfs(proc uint32, cred Cred, args []byte) (Reply, NfsRes) {
 	w.clockNs += int64(w.step)
